@@ -119,6 +119,8 @@ def parse_module(text, mod=None):
         m = re.match(r'(%(?:"[^"]*"|[-\w.$]+)) = type (.*)', ln)
         if m:
             mod.named[m.group(1)] = P(lex(m.group(2)), mod).type(); continue
+        if ln.startswith(('@llvm.global_ctors', '@llvm.global_dtors', '@llvm.used', '@llvm.compiler.used')):
+            continue        # static initialisers (std::ios_base::Init of <iostream>) are not run
         if ln.startswith('@'):
             name = re.match(r'(@(?:"[^"]*"|[-\w.$]+))', ln).group(1)
             mod.globals[name] = ln; continue
